@@ -367,6 +367,18 @@ func main() {
 		add("corpus", load(f))
 	}
 	r := lib.NewRng(a.Seed)
+	// pattern stream: the catalogue of parenthesisation / negation shapes at every position
+	rounds := 1
+	if a.Tier == "thorough" {
+		rounds = 6
+	}
+	for round := 0; round < rounds; round++ {
+		in0 := Input{Atoms: whr.GenAtoms(r, names, nicks)}
+		g := whr.NewGen(r, in0.Atoms)
+		for _, ch := range g.PatternChains(false) {
+			add("pattern", Input{Rows: genRows(r), Atoms: in0.Atoms, Chain: ch})
+		}
+	}
 	budget := 600
 	if a.Tier == "thorough" {
 		budget = 12000
@@ -375,7 +387,7 @@ func main() {
 		budget = a.N
 	}
 	for i := 0; i < budget; i++ {
-		in := Input{Rows: genRows(r), Atoms: genAtoms(r)}
+		in := Input{Rows: genRows(r), Atoms: whr.GenAtoms(r, names, nicks)}
 		g := whr.NewGen(r, in.Atoms)
 		hostile := r.Chance(1, 2)
 		n := r.Range(1, 4)
